@@ -20,12 +20,7 @@ def run(ctx):
     shared.reader_sequences(ctx, "C01-R1")
     ctx.rule("C01-R2", "no over-read inside the primitives")
     shared.poll_loops(ctx, "C01-R2")
-    f = A.fn("<&[u8] as wtransport_proto::bytes::BytesReader>::get_varint")
-    ps = nonpanic(walk(f))
-    okp = [p for p in ps if path_sig(p)[1].startswith("return Option::Some")]
-    adv = [e for p in okp for e in event_strs(p) if e.startswith("store self :=")]
-    ctx.check("C01-R2", "<&[u8]>::get_varint advances by parse_size(first)", bool(adv) and all(re.match(r"^store self := self\[VarInt::parse_size\(ok\(<impl \[T\]>::first\(self\)\)\)\.\.\]$", e) for e in adv),
-              "<&[u8] as BytesReader>::get_varint does not advance by exactly the varint length: %s" % adv, where(f))
+    shared.slice_reader_advance(ctx, "C01-R2")
 
     ctx.rule("C01-R3", "no buffering layer: handles are newtypes over quinn streams; I/O delegates unchanged")
     for ty, inner in (("wtransport::driver::streams::QuicRecvStream", "quinn::RecvStream"), ("wtransport::driver::streams::QuicSendStream", "quinn::SendStream"),
